@@ -1173,6 +1173,43 @@ pub fn live_responder_answers() -> Vec<Case> {
                 }
             }
         }
+        // a large query (a hundred questions for other names in front of the one for the registered name, some 4 KB - what a
+        // browser of many services sends): every matching registered record is in the reply. Whether this environment
+        // delivers multicast datagrams of that size at all is seen by a probe socket of the harness in the same group
+        {
+            use socket2::{Domain, Protocol, Socket, Type};
+            use std::net::{Ipv4Addr, SocketAddr, SocketAddrV4};
+            let probe = (|| -> std::io::Result<UdpSocket> {
+                let l = Socket::new(Domain::IPV4, Type::DGRAM, Some(Protocol::UDP))?;
+                l.set_reuse_address(true)?;
+                let _ = l.set_reuse_port(true);
+                l.bind(&SocketAddr::V4(SocketAddrV4::new(Ipv4Addr::UNSPECIFIED, 5353)).into())?;
+                l.join_multicast_v4(&Ipv4Addr::new(224, 0, 0, 251), &Ipv4Addr::UNSPECIFIED)?;
+                l.set_read_timeout(Some(Duration::from_millis(100)))?;
+                Ok(l.into())
+            })();
+            if let Ok(probe) = probe {
+                let id = 0x1310u16;
+                let mut q = Packet::new_query(id);
+                for k in 0..100 { q.questions.push(Question::new(Name::new_unchecked(&format!("filler-{:03}-of-a-long-list-of-services._tcp.local", k)).into_owned(), QTYPE::TYPE(TYPE::A), CLASS::IN.into(), true)); }
+                q.questions.push(Question::new(name.clone(), QTYPE::TYPE(TYPE::A), CLASS::IN.into(), true));
+                let bytes = q.build_bytes_vec().unwrap();
+                let (mut delivered, mut answered) = (false, false);
+                for _ in 0..4 {
+                    let _ = sock.send_to(&bytes, dest);
+                    let deadline = Instant::now() + Duration::from_millis(500);
+                    let mut buf = [0u8; 9000];
+                    while Instant::now() < deadline && !answered {
+                        if let Ok((n, _)) = probe.recv_from(&mut buf) { if n == bytes.len() && buf[..2] == id.to_be_bytes() { delivered = true; } }
+                        if let Ok((n, _)) = sock.recv_from(&mut buf) { if let Ok(p) = Packet::parse(&buf[..n]) { if p.id() == id && p.has_flags(PacketFlag::RESPONSE) && p.answers.iter().any(|x| same(&regs[0], x)) { answered = true; } } }
+                    }
+                    if answered { break; }
+                }
+                if delivered && !answered && ask(QTYPE::TYPE(TYPE::A), name, 0x1311).is_some() {
+                    c = c.fail("answer-missing", format!("{} responder: a query of {} bytes with 101 questions, the last one for a registered A record, gets no reply (the datagram reached the group: a probe socket received it; a one-question query is answered)", flavour, bytes.len()));
+                } else if answered { c = c.tag("large-query-answered"); }
+            }
+        }
         if c.oracle_fail.is_none() { c = c.tag("sockets-alive"); }
         c
     }
